@@ -322,8 +322,13 @@ fn parse_sequence_header(obu_data: &[u8], header_size: usize) -> Option<Av1Confi
             }
         }
 
-        // decoder_model_info_present_flag: 1 bit
-        let decoder_model_info_present = reader.read_bit()?;
+        // decoder_model_info_present_flag: 1 bit, only coded when timing info
+        // is present (AV1 spec 5.5.1); otherwise it is inferred to be 0.
+        let decoder_model_info_present = if timing_info_present {
+            reader.read_bit()?
+        } else {
+            false
+        };
         let mut buffer_delay_length = 0;
         if decoder_model_info_present {
             buffer_delay_length = reader.read_bits(5)? as u8 + 1;
